@@ -34,6 +34,9 @@ ASSUMPTIONS = [
     "wall-clock bounds (data-source gate 120 s, scenario 600 s) are tool errors, never verdicts; an execution-manager "
     "request timeout (1 s wall clock, hard-coded for mock execution) changes only the order-response event, which is "
     "not compared",
+    "paused-clock scenarios (current_thread runtime, tokio time paused, data source sleeping virtual milliseconds to "
+    "hours between items, days in total) are judged on the dataset-consumption clauses; HistoricalClock reads the real "
+    "Utc::now there, which only stamps",
     "the fatal-error path (engine stops on an unrecoverable execution-link error) is model-checked in the specification "
     "but not driven in the implementation: the property exempts it",
 ]
@@ -112,6 +115,9 @@ def tlc_scenarios(ctx, outcomes):
             scns.append(dict(base, name="tg%d.w%d" % (di, w), mode="gated", workers=w, latency_ms=wi % 2, alone=False, runs=order))
             scns.append(dict(base, name="tm%d.w%d" % (di, w), mode="inmem", workers=w, latency_ms=(wi + 1) % 2, alone=False,
                              points=[], runs=list(reversed(order))))
+        # the same runs over a data source that takes (virtual) hours between items: paused tokio clock
+        scns.append(dict(base, name="tp%d" % di, mode="paused", workers=1, latency_ms=di % 2, alone=False, points=[],
+                         gaps=("long", "short", "one", "tail")[di % 4], runs=runs))
     return scns, expected
 
 
